@@ -1,6 +1,6 @@
 (* C05 — row access is exact for every on-disk encoding and chunking.
    Property theorems only: each is closed by `exact <lemma>`. *)
-From Coq Require Import List Arith ZArith Bool.
+From Coq Require Import List Arith ZArith Bool Lia.
 From CTM Require Import Base.Sx Model.Sparse Proofs.SparseP.
 Import ListNotations.
 
@@ -52,12 +52,16 @@ Definition c05_ex : comp :=
 Example c05_example_wf : wf_csr c05_ex 3 4 /\ no_dup_minor c05_ex.
 Proof.
   split.
-  - unfold wf_csr, wf_comp. cbn. repeat split; auto. repeat constructor.
-  - intros j Hj. cbn in Hj. destruct j as [|[|[|j]]]; cbn.
-    + repeat constructor; cbn; intuition discriminate.
-    + constructor.
-    + repeat constructor; cbn; intuition discriminate.
-    + exfalso. repeat apply Nat.succ_lt_mono in Hj. inversion Hj.
+  - unfold wf_csr, wf_comp, c05_ex; cbn [ptr idx dat hd last length mono].
+    split; [split; [reflexivity | split; [reflexivity | split]] | split; reflexivity].
+    + lia.
+    + repeat (apply Forall_cons; [lia|]). apply Forall_nil.
+  - intros j Hj. unfold c05_ex in *; cbn [ptr idx dat length] in *.
+    assert (D : j = 0 \/ j = 1 \/ j = 2) by lia.
+    destruct D as [ -> | [ -> | -> ] ]; vm_compute.
+    + repeat (apply NoDup_cons; [cbn [In]; lia|]). apply NoDup_nil.
+    + apply NoDup_nil.
+    + repeat (apply NoDup_cons; [cbn [In]; lia|]). apply NoDup_nil.
 Qed.
 Example c05_example_blocks :
   iterate_csr c05_ex 3 4 2 =
